@@ -287,6 +287,10 @@ def templates(tier):
     return t
 
 
+# quick tier: white-space at every boundary plus ONE comment form per boundary (rotating), each with one symbolic character
+QUICK_COMMENTS = [('block', lambda c: [47, 42, c[0], 42, 47], 1, 'c'), ('line', lambda c: [32, 45, 45, c[0], 10], 1, 'c'), ('inline', lambda c: [32, 45, 45, c[0], 45, 45, 32], 1, 'c')]
+
+
 def job_lexer(prog, chk, mi, k, n, tier):
     from mirsym import pipe
     fn = prog.find(ASN_MODULE)
@@ -311,7 +315,10 @@ def job_lexer(prog, chk, mi, k, n, tier):
     work = [(b, t) for b in bs for t in templates(tier)]
     # quick: white-space at every boundary, comment templates at every third boundary
     if tier == 'quick':
-        work = [(b, t) for j, b in enumerate(bs) for t in templates(tier) if t[0] == 'ws1' or j % 3 == (mi % 3)]
+        work = []
+        for j, b in enumerate(bs):
+            work.append((b, templates(tier)[0]))
+            work.append((b, QUICK_COMMENTS[(j + mi) % 3]))
     try:
         for (pos, width), (tname, mk, nsym, alpha) in work[k::n]:
             cs = [z3.BitVec(f"c{i}", 32) for i in range(nsym)]
